@@ -4,6 +4,10 @@ Property theorems only; helper lemmas live in Proofs/.
 -/
 import FsVerif.Proofs.PosExtra
 import FsVerif.Proofs.BufExtra
+import FsVerif.Proofs.Fleet
+import FsVerif.Proofs.SlotBelt3
+import FsVerif.Proofs.CBeltRoom
+import FsVerif.Proofs.PrioReqCap
 namespace FsVerif.Props.C01
 open FsVerif PosStore
 
@@ -59,5 +63,35 @@ theorem buf_move_guard_dead {s : BufStore} (h : BufStore.ReachD s) :
 
 /-- `Buffer.occupancy()` counts in-transit and ready items -/
 theorem buf_occupancy (s : BufStore) : s.occupancy = s.transit.length + s.ready.length := rfl
+
+/-! ### FleetStore / Fleet, both conveyor stores, PriorityReqStore -/
+
+/-- the store inside a Fleet: items waiting for the vehicle or under way + delivered items + granted-unused space reservations never
+    exceed the capacity, in every reachable state (kernel events of the fleet's processes included) -/
+theorem fleet_capacity {s : FleetStore} (h : FleetStore.ReachD s) (c : Nat) (hc : s.cfg.cap = some c) :
+    s.b.putRes.length + (s.b.transit.length + s.b.ready.length) ≤ c := by
+  have hk := FleetStore.reachD_kt h
+  have := hk.core.cap c (by rw [hk.cfgB]; exact hc)
+  simpa [BufStore.level] using this
+
+/-- slotted conveyor: items travelling + items at the exit + granted-unused space reservations ≤ capacity, for every operation sequence -/
+theorem slot_capacity (cfg : SlotCfg) (ops : List SlotBelt.Op) :
+    let s := SlotBelt.run (SlotBelt.init cfg) ops
+    s.putRes.length + (s.items.length + s.ready.length) ≤ s.cfg.cap :=
+  (SlotBelt.run_inv ops _ (SlotBelt.init_inv cfg)).room.room
+
+/-- continuous conveyor: the same, interrupts / resumes / the state machine included -/
+theorem cbelt_capacity (cfg : CCfg) (ops : List CBelt.Op) :
+    let s := CBelt.run (CBelt.init cfg) ops
+    s.putRes.length + (s.items.length + s.ready.length) ≤ s.cfg.cap :=
+  (CBelt.run_roomC ops _ (CBelt.init_roomC cfg)).room
+
+/-- PriorityReqStore: a put request is triggered only while there is room -/
+theorem prq_capacity {s : PrioReq} (h : PrioReq.Reachable s) : s.items.length ≤ s.cap :=
+  PrioReq.reachable_cap h
+
+/-- non-vacuity: a PriorityReqStore of capacity 1 holding one item with a second put waiting -/
+example : (PrioReq.run (PrioReq.init 1) [.put 0 ⟨1, 0⟩, .put 0 ⟨2, 0⟩]).items.length = 1 ∧
+          (PrioReq.run (PrioReq.init 1) [.put 0 ⟨1, 0⟩, .put 0 ⟨2, 0⟩]).putQ.length = 1 := by decide
 
 end FsVerif.Props.C01
